@@ -168,7 +168,13 @@ def worker():
         from jaxley.channels import HH
         comp = jx.Compartment()
         cell = jx.Cell([jx.Branch(comp, 2), jx.Branch(comp, 1), jx.Branch(comp, 2)], parents=[-1, 0, 0])
-        cell.insert(HH())
+        if it.get("chan") == "NaK":
+            from jaxley.channels import Na, K, Leak
+            cell.insert(Na()); cell.insert(K()); cell.insert(Leak())
+        else:
+            cell.insert(HH())
+        if it.get("v0") is not None:
+            cell.set("v", float(it["v0"]))          # exactly on a removable singularity of a rate function
         if it.get("net"):
             # synaptic parameters: three cells, two synapse types, fan-in; the parameter is shared by the type or one per synapse
             from jaxley.connect import connect
@@ -211,6 +217,10 @@ def worker():
             res["mismatch"].append({"kind": "raised", "key": it["key"], "voltage_solver": it["vs"], "err": type(e).__name__ + ": " + str(e)[:150]})
             continue
         res["grads"] += 1
+        if not (np.isfinite(g_rev).all() and np.isfinite(g_fwd).all()):
+            res["mismatch"].append({"kind": "gradient_not_finite", "key": it["key"], "voltage_solver": it["vs"], "solver": it["solver"],
+                                    "checkpointing": bool(it["layout"]), "v0": it.get("v0"), "rev": g_rev.tolist(), "fwd": g_fwd.tolist()})
+            continue
         sc = float(np.max(np.abs(g_fwd))) + 1e-300
         if float(np.max(np.abs(g_rev - g_fwd))) / sc > 1e-8:
             res["mismatch"].append({"kind": "reverse_vs_forward_mode", "key": it["key"], "voltage_solver": it["vs"], "solver": it["solver"],
@@ -314,6 +324,12 @@ def main():
             syn.append({"key": key, "view": view, "vs": vs, "net": True, "solver": "bwd_euler" if len(syn) % 2 == 0 else "crank_nicolson",
                         "layout": [5, 5] if len(syn) % 3 == 0 else None})
     hh += syn[C.seed() % 2::2] if quick else syn
+    # voltages exactly on the removable singularities of the rate functions: the derivative exists and must be finite and right
+    sing = [{"key": "v", "view": "comp", "vs": "jaxley.stone", "solver": "bwd_euler", "layout": None, "v0": -55.0},
+            {"key": "v", "view": "branch", "vs": "jax.sparse", "solver": "crank_nicolson", "layout": [4, 5], "v0": -40.0},
+            {"key": "vt", "view": "module", "vs": "jaxley.thomas", "solver": "bwd_euler", "layout": None, "v0": -47.0, "chan": "NaK"},
+            {"key": "v", "view": "comp", "vs": "jaxley.stone", "solver": "bwd_euler", "layout": None, "v0": -45.0, "chan": "NaK"}]
+    hh += sing[C.seed() % 2::2] if quick else sing
     jobs = []
     nchunks = C.NCPU
     sc, nc_, hc = C.chunks(struct, nchunks), C.chunks(numeric, nchunks), C.chunks(hh, nchunks)
